@@ -580,7 +580,7 @@ def replay_case(case, variant):
     # ---- compare with the behaviour -----------------------------------------
     if case["outcome"] == "rejected":
         if err is None:
-            return "argument in both cases and grid was not rejected", drift
+            return ("invalid input (an argument in both cases and grid, or duplicate values for one argument) was not rejected before running", drift)
         if log.calls:
             return "function was called %d times before the overlap was rejected" % len(log.calls), drift
         return None, drift
